@@ -311,7 +311,8 @@ theorem mem_sortStrs {y : String} {l : List String} (h : y ∈ l) : y ∈ sortSt
 theorem C02_vars_facts :
     Gen.Vars.recognised = true ∧ Gen.Vars.directivesWalkedInHeader = true
     ∧ Gen.Vars.directivesWalkedInVariablesList = true ∧ Gen.Vars.declaredDefaultsApplied = true
-    ∧ Gen.Vars.declaredDefaultsAppliedSubscription = true ∧ Gen.Vars.strictestTypeWins = true := by decide
+    ∧ Gen.Vars.declaredDefaultsAppliedSubscription = true ∧ Gen.Vars.strictestTypeWins = true
+    ∧ Gen.Vars.emptyListDefaultsKept = true := by decide
 
 /-! ## One variable at several positions -/
 
@@ -554,6 +555,12 @@ theorem C02_value_forwarded (rv : List (String × J)) (c : PCtx) (er : ExecReq) 
 /-! ## Declared defaults -/
 
 namespace C02
+/-- as the code has it now the default is stored as declared (this is where reverting the
+    `emptyListsNotNil` repair breaks) -/
+theorem defaultAsSent_current (v : J) : defaultAsSent Gen.Vars.emptyListDefaultsKept v = v := by
+  have h : Gen.Vars.emptyListDefaultsKept = true := by decide
+  simp [defaultAsSent, h]
+
 /-- one step of `applyDeclaredDefaults` keeps what the request already carries -/
 theorem step_keeps (n : String) (x : J) (vd : VarDef) (rv : Option (List (String × J)))
     (h : J.lookup n (rv.getD []) = some x) :
@@ -585,6 +592,7 @@ theorem apply_keeps (n : String) (x : J) : ∀ (varDefs : List VarDef) (rv : Opt
   | [], rv, h => by simpa [applyDeclaredDefaults] using h
   | vd :: rest, rv, h => by
     unfold applyDeclaredDefaults
+    simp only [defaultAsSent_current]
     simp only [List.foldl_cons]
     exact apply_keeps n x rest _ (step_keeps n x vd rv h)
 
@@ -599,6 +607,7 @@ theorem apply_default (n : String) (d : Value) (v : J) (hv : Spec.constToJ d = s
   | vd0 :: rest, rv, h, hnone => by
     obtain ⟨vd, hm, hname, hdef, huniq⟩ := h
     unfold applyDeclaredDefaults
+    simp only [defaultAsSent_current]
     simp only [List.foldl_cons]
     by_cases h0 : vd0.name = n
     · -- this definition is the one
@@ -691,6 +700,16 @@ theorem C02_before_repair_directive_variable :
 def C02.defaultOp : Op :=
   ⟨.query, "", [⟨"v", .named "Int", some (.int "5")⟩],
    [.field "f" "f" [⟨"a", .var "v"⟩] [] (.named "String") [⟨"a", .named "Int", none, "", []⟩] []]⟩
+
+/-- **An empty-list default travels as `[]`** — `(*ast.Value).Value` hands back a nil slice for an
+    empty list literal, which `encoding/json` writes as `null`; before the repair
+    (`emptyListsNotNil`) `query($v: [Int!] = [])` and `= {tags: []}` reached the service as `null`.
+    Concrete witness on both branches of the model, by evaluation. -/
+theorem C02_before_repair_empty_list_default :
+    defaultAsSent false (.arr []) = .null ∧
+    defaultAsSent false (.obj [("tags", .arr []), ("n", .num "1")]) = .obj [("tags", .null), ("n", .num "1")] ∧
+    defaultAsSent true (.obj [("tags", .arr [])]) = .obj [("tags", .arr [])] := by
+  exact ⟨rfl, rfl, rfl⟩
 
 /-- **Before the repair** (no `applyDeclaredDefaults`): `query($v: Int = 5) { f(a: $v) }` sent
     without variables reaches the service without a value for `$v` (and the header declares
